@@ -426,3 +426,83 @@ LEVEL_TEXT = ("JUnit handler crash-freedom is a deductive obligation over an arb
               "plus a bounded loop-bookkeeping check; cassette structure by a native matrix. Level other: most of the property lives in string formats outside the deductive encoding.")
 LEVEL_NOTE = "Trusted: PyYAML / junit-xml / harfile (E6), Statistic summary contract, pyvc semantics (E9)."
 TECHNIQUE = "contract-based deductive verification (pyvc/z3) for report-handler key safety; complete finite-domain enumeration and bounded native stand-ins for the YAML writer"
+
+
+# ------------------------------------------------------------------------------------------------- initialize_handlers: every requested report gets its writer, configured as the user asked
+EXE16 = "schemathesis.cli.commands.run.executor:"
+HND = "schemathesis.cli.commands.run.handlers."
+RPT = "schemathesis.cli.commands.run.reports:"
+
+
+def _recorded(cls_name):
+    def returns(it, env):
+        from pyvc.values import VObj
+
+        obj = VObj(it.resolve_class("spec:" + cls_name), {k: v for k, v in env.items() if not k.startswith("__")})
+        return obj
+
+    return returns
+
+
+R.contract(HND + "junitxml:JunitXMLHandler", abstract_only=True, args={"path": Opq("Any")}, returns=_recorded("JunitWriter"), note="constructor (its handle_event has its own contract above)")
+R.contract(HND + "cassettes:CassetteWriter", abstract_only=True, args={"format": Opq("Any"), "path": Opq("Any"), "sanitize_output": Opq("Any"), "preserve_bytes": Opq("Any")},
+           returns=_recorded("CassetteWriterRecord"), note="constructor (the writers have their own stand-ins above)")
+R.contract(HND + "output:OutputHandler", abstract_only=True, args={"workers_num": Opq("Any"), "seed": Opq("Any"), "rate_limit": Opq("Any"), "wait_for_schema": Opq("Any"), "engine_config": Opq("Any"),
+                                                                  "report_config": Opq("Any")}, returns=_recorded("ConsoleOutput"), note="constructor of the console output")
+R.contract("schemathesis.cli.ext.fs:open_file", args={"file": Opq("Any")}, returns=NoneT, trusted=True, effects={"opened": "ghost('opened') + [file]"}, note="creates the parent directory and opens the lazy file")
+R.module_values[EXE16.rstrip(":") + ":CUSTOM_HANDLERS"] = []
+R.nominal_methods["spec:ReportCfg"] = {"get_path": lambda it, obj, a, k: ("path-of", a[0])}
+
+
+class _Formats(D):
+    """config.report.formats: any subset of {JUNIT, VCR, HAR}, in any of two orders."""
+
+    def make(self, it, name, idx=()):
+        cls = it.resolve_class(RPT + "ReportFormat")
+        it.ensure_enum(cls)
+        M = cls.members
+        picked = [M[n] for n in ("JUNIT", "VCR", "HAR") if it.path.choose([(False, True), (True, True)], f"format:{n}")]
+        if it.path.choose([(False, True), (True, True)], "reversed"):
+            picked = list(reversed(picked))
+        return picked
+
+
+R.spec_funcs["fmt"] = lambda it, name: (it.ensure_enum(it.resolve_class(RPT + "ReportFormat")), it.resolve_class(RPT + "ReportFormat").members[name])[1]
+R.contract(
+    EXE16 + "initialize_handlers",
+    prop="C16",
+    args={"config": Obj("spec:RunCfg", args=Const(()), params=Const({}), rate_limit=Opq("Any"), wait_for_schema=Opq("Any"),
+                        report=OneOf(NoneT, Obj("spec:ReportCfg", formats=_Formats(), sanitize_output=Bool, preserve_bytes=Bool)),
+                        engine=Obj("spec:EngineCfg", execution=Obj("spec:ExecCfg", workers_num=Int, seed=Opt(Int))))},
+    ghost={"opened": []},
+    raises=[],
+    ensures={
+        # every report the user asked for is written - by exactly one writer, to that format's own path; nothing is written that was not asked for
+        "one_junit_writer_iff_junit_was_requested": "length([h for h in result if is_instance(h, 'JunitWriter')]) == (1 if (config.report is not None and fmt('JUNIT') in config.report.formats) else 0) and "
+                                                    "all(h.path == ('path-of', fmt('JUNIT')) for h in result if is_instance(h, 'JunitWriter'))",
+        "one_cassette_writer_per_requested_cassette_format": "all(length([h for h in result if is_instance(h, 'CassetteWriterRecord') and h.format is fmt(f)]) == "
+                                                             "(1 if (config.report is not None and fmt(f) in config.report.formats) else 0) for f in ('VCR', 'HAR')) and "
+                                                             "all(h.path == ('path-of', h.format) for h in result if is_instance(h, 'CassetteWriterRecord'))",
+        # C15: the cassette writers sanitize exactly when the user's switch says so; C16: bytes are preserved exactly when asked
+        "cassette_writers_get_the_users_switches": "all(same_value(h.sanitize_output, config.report.sanitize_output) and same_value(h.preserve_bytes, config.report.preserve_bytes) for h in result if is_instance(h, 'CassetteWriterRecord'))",
+        "every_report_file_is_opened": "length(ghost('opened')) == length([h for h in result if not is_instance(h, 'ConsoleOutput')]) and all(any(p == h.path for p in ghost('opened')) for h in result if not is_instance(h, 'ConsoleOutput'))",
+        # the console output comes last (it prints the summary after the report writers have finished) and shows the seed of THIS run (C13)
+        "console_output_last_with_the_runs_seed": "is_instance(result[-1], 'ConsoleOutput') and length([h for h in result if is_instance(h, 'ConsoleOutput')]) == 1 and "
+                                                  "same_value(result[-1].seed, config.engine.execution.seed) and same_value(result[-1].workers_num, config.engine.execution.workers_num) and result[-1].report_config is config.report",
+    },
+    bounded_note="every subset of the three report formats (two orders)",
+    replayable=False,
+)
+
+
+def _same_value(it, a, b):
+    from pyvc.values import Sym
+    from pyvc import ops
+    from pyvc.builtins_ import type_name
+
+    if isinstance(a, Sym) or isinstance(b, Sym) or isinstance(a, (int, str, bool)) or isinstance(b, (int, str, bool)):
+        return type_name(a) == type_name(b) and ops.eq(a, b)
+    return a is b
+
+
+R.spec_funcs["same_value"] = _same_value
